@@ -81,6 +81,10 @@ def wrapper(base, new_id, name, nparams, subst, targs=None, const_vals=(), base_
     else:
         contracts[fn] = dict(bc)
         calls[fn] = 'contract'
+    # look-alike functions the wrapper could forward to by mistake: under their own contracts too
+    for sfn, sc in kw.pop('siblings', []):
+        contracts[sfn] = dict(sc, optional=True)
+        calls[sfn] = 'contract'
     u['contracts'] = contracts
     u['calls'] = calls
     if const_vals:
@@ -114,7 +118,7 @@ rsuc = by_id(PL, 'plans.R_.succeed')
 rfai = by_id(PL, 'plans.R_.fail')
 ract = by_id(CT, 'control.R_.isActive')
 UNITS += [
-    wrapper(rchg, 'wrappers.R_.changeTo_T', 'changeTo', 0, {'stateId_': '1'}, targs=r'^B$', const_vals=(1,)),
+    wrapper(rchg, 'wrappers.R_.changeTo_T', 'changeTo', 0, {'stateId_': '1'}, targs=r'^B$', const_vals=(1,), siblings=[('R___immediateChangeTo__1', target_contract(rimm)[1])]),
     wrapper(rimm, 'wrappers.R_.immediateChangeTo_T', 'immediateChangeTo', 0, {'stateId_': '1'}, targs=r'^B$', const_vals=(1,)),
     wrapper(rsuc, 'wrappers.R_.succeed_T', 'succeed', 0, {'stateId_': '0'}, targs=r'^A$', const_vals=(0,), inline=True),
     wrapper(rfai, 'wrappers.R_.fail_T', 'fail', 0, {'stateId_': '0'}, targs=r'^A$', const_vals=(0,), inline=True),
@@ -123,7 +127,7 @@ UNITS += [
 rcw = by_id(M, 'root.RV_.changeWith')
 ricw = by_id(M, 'root.RV_.immediateChangeWith')
 UNITS += [
-    wrapper(rcw, 'wrappers.RP_.changeWith_T', 'changeWith', 1, {'stateId_': '2'}, targs=r'^C$', const_vals=(2,)),
+    wrapper(rcw, 'wrappers.RP_.changeWith_T', 'changeWith', 1, {'stateId_': '2'}, targs=r'^C$', const_vals=(2,), siblings=[('RP___immediateChangeWith__2', target_contract(ricw)[1])]),
     wrapper(ricw, 'wrappers.RP_.immediateChangeWith_T', 'immediateChangeWith', 1, {'stateId_': '2'}, targs=r'^C$', const_vals=(2,)),
 ]
 # ---- plan
